@@ -14,6 +14,11 @@ import (
 
 var (
 	ErrInvalidLength = errors.New("invalid signature length")
+	// ErrNonCanonicalSignature is returned by Recover for an encoding of a signature
+	// other than the one Signer.Sign produces.
+	ErrNonCanonicalSignature = errors.New("non-canonical signature")
+
+	secp256k1HalfOrder = new(big.Int).Rsh(btcec.S256().N, 1)
 )
 
 type Signer interface {
@@ -45,6 +50,17 @@ func hashWithEthereumPrefix(data []byte) ([]byte, error) {
 func Recover(signature, data []byte) (*ecdsa.PublicKey, error) {
 	if len(signature) != 65 {
 		return nil, ErrInvalidLength
+	}
+	// Accept only the encoding Sign produces: recovery id 27..30 (btcec would also
+	// take 31..34, the same id with its compressed-key flag set) and s in the lower
+	// half of the group order (btcec signs with low s; (r, N-s) with the parity bit
+	// flipped recovers the same key). Otherwise one signed message has several
+	// accepted signatures, and a signed record several accepted serialisations.
+	if v := signature[64]; v < 27 || v > 30 {
+		return nil, ErrNonCanonicalSignature
+	}
+	if new(big.Int).SetBytes(signature[32:64]).Cmp(secp256k1HalfOrder) > 0 {
+		return nil, ErrNonCanonicalSignature
 	}
 	// Convert to btcec input format with 'recovery id' v at the beginning.
 	btcsig := make([]byte, 65)
